@@ -139,11 +139,17 @@ Intrinsic(tx) ==
     21000 + 4 * ZeroBytes(tx.data) + (IF Has(ISTANBUL) THEN 16 ELSE 68) * (Len(tx.data) - ZeroBytes(tx.data))
     + (IF tx.to = 0 /\ Has(HOMESTEAD) THEN 32000 ELSE 0)
     + (IF tx.to = 0 /\ Has(SHANGHAI) THEN 2 * Words(Len(tx.data)) ELSE 0)
+    + 25000 * Len(tx.auths)
     + 2400 * Len(tx.al) + 1900 * (LET RECURSIVE S(_) S(i) == IF i = 0 THEN 0 ELSE Len(tx.al[i].keys) + S(i - 1) IN S(Len(tx.al)))
 FloorGas(tx) == IF Has(PRAGUE) THEN 21000 + 10 * (ZeroBytes(tx.data) + 4 * (Len(tx.data) - ZeroBytes(tx.data))) ELSE 0
 
 -----------------------------------------------------------------------------
 (* ---------------------------------------------------------------- accounts *)
+\* EIP-7702 delegation designator: 0xef0100 || 20-byte address (addresses here fit in the last byte)
+DelegCode(a) == <<239, 1, 0>> \o Zeros(19) \o <<a>>
+DelegOf(code) == IF Len(code) = 23 /\ code[1] = 239 /\ code[2] = 1 /\ code[3] = 0 /\ (\A i \in 4..22 : code[i] = 0)
+                 THEN code[23] ELSE 0
+BLOBGAS == 131072                \* gas per blob; the blob gas price is 1 (no excess blob gas in the block)
 EmptyAcct(a) == a.bal = 0 /\ a.nonce = 0 /\ a.code = <<>>
 \* "dead": does not exist, or (from Spurious Dragon) is empty
 Dead(w, a) == IF Has(SPURIOUS) THEN ~w[a].ex \/ EmptyAcct(w[a]) ELSE ~w[a].ex
@@ -198,7 +204,9 @@ FinishTx(mm, status, out, gasLeft, refund) ==
     LET tx == mm.tx
         spent == tx.gas - gasLeft
         q == IF Has(LONDON) THEN 5 ELSE 2
-        ref == IF status = "ok" THEN Min(Max(refund, 0), spent \div q) ELSE 0
+        \* refunds earned by execution count only on success; the EIP-7702 refund for existing
+        \* authorities is granted whatever the outcome
+        ref == Min(Max((IF status = "ok" THEN refund ELSE 0) + mm.authref, 0), spent \div q)
         used0 == spent - ref
         used == Max(used0, FloorGas(tx))
         price == EffPrice(tx)
@@ -214,7 +222,7 @@ FinishTx(mm, status, out, gasLeft, refund) ==
                    out |-> out, logs |-> IF status = "ok" THEN mm.logs ELSE <<>>,
                    created |-> IF tx.to = 0 /\ status = "ok" THEN mm.txcreated ELSE 0, events |-> mm.events]
     IN [mm EXCEPT !.world = w3, !.frames = <<>>, !.res = Append(@, result), !.ph = "tx", !.events = <<>>,
-                  !.burnt = @ + (IF Has(LONDON) THEN used * BaseFee ELSE 0)]
+                  !.burnt = @ + (IF Has(LONDON) THEN used * BaseFee ELSE 0) + tx.blobs * BLOBGAS]
 
 \* what the parent sees when a child call frame ends
 AfterCall(mm, child, status, out, gasLeft, refund) ==
@@ -296,8 +304,10 @@ DoCall(mm, kind, gas, target, codeaddr, caller, value, apparent, input, retOff, 
                  ELSE IF transfers THEN [w EXCEPT ![target].ex = TRUE] ELSE w
            \* a CALL (also with zero value) touches its target; the other kinds run in the caller's own account
            tch == IF kind \in {"call", "txcall", "static"} THEN me.touched \cup {target} ELSE me.touched
-           m1 == [me EXCEPT !.world = w1, !.touched = tch]
-           code == w[codeaddr].code
+           m1 == [me EXCEPT !.world = w1, !.touched = tch,
+                            !.accA = IF Has(PRAGUE) /\ DelegOf(w[codeaddr].code) # 0 THEN @ \cup {DelegOf(w[codeaddr].code)} ELSE @]
+           dlg == IF Has(PRAGUE) THEN DelegOf(w[codeaddr].code) ELSE 0
+           code == IF dlg # 0 THEN (IF dlg \in AddrU THEN w[dlg].code ELSE <<>>) ELSE w[codeaddr].code
        IN IF codeaddr \in Precompiles
           THEN IF codeaddr # IDENTITY THEN Cut(mm)
                ELSE LET c == IdentityCost(Len(input)) IN
@@ -453,6 +463,9 @@ Step(mm) ==
       [] op = 70 -> IF ~Has(ISTANBUL) THEN Halt(mm) ELSE Simple(0, <<ChainId>>, 2)               \* CHAINID
       [] op = 72 -> IF ~Has(LONDON) THEN Halt(mm) ELSE Simple(0, <<BaseFee>>, 2)                 \* BASEFEE
       [] op = 71 -> IF ~Has(ISTANBUL) THEN Halt(mm) ELSE Simple(0, <<w[self].bal>>, 5)           \* SELFBALANCE
+      [] op = 73 -> IF ~Has(CANCUN) THEN Halt(mm)                                                \* BLOBHASH: zero beyond the list
+                    ELSE IF n < 1 THEN Halt(mm) ELSE IF ~InDom(s0) \/ s0 < mm.tx.blobs THEN Cut(mm) ELSE Simple(1, <<0>>, 3)
+      [] op = 74 -> IF ~Has(CANCUN) THEN Halt(mm) ELSE Simple(0, <<1>>, 2)                       \* BLOBBASEFEE
       [] op = 80 -> Simple(1, <<>>, 2)                                                           \* POP
       [] op = 81 ->                                                                              \* MLOAD
             IF n < 1 THEN Halt(mm) ELSE IF ~InDom(s0) THEN Cut(mm)
@@ -577,7 +590,9 @@ Step(mm) ==
                      cnew == IF op # 241 THEN 0
                              ELSE IF Has(SPURIOUS) THEN (IF val > 0 /\ Dead(w, to) THEN 25000 ELSE 0)
                              ELSE (IF ~w[to].ex THEN 25000 ELSE 0)
-                     c == cm1 + cm2 + cacc + cval + cnew IN
+                     dlg == IF Has(PRAGUE) THEN DelegOf(w[to].code) ELSE 0
+                     cdel == IF dlg # 0 THEN (IF Warm(mm, dlg) THEN 100 ELSE 2600) ELSE 0
+                     c == cm1 + cm2 + cacc + cval + cnew + cdel IN
                  IF big THEN (IF f.gas < FarCost(f.mem) THEN Halt(mm) ELSE Cut(mm))
                  ELSE IF f.gas < c THEN Halt(mm)
                  ELSE LET rest == f.gas - c
@@ -631,18 +646,41 @@ ValidTx(mm, tx) ==
     /\ mm.world[Sender].bal >= tx.gas * tx.price + tx.value
     /\ Has(LONDON) => tx.price >= BaseFee
     /\ tx.prio >= 0 => (Has(LONDON) /\ tx.prio <= tx.price)
+    /\ tx.blobs > 0 => (Has(CANCUN) /\ tx.to # 0 /\ tx.prio >= 0 /\ tx.auths = <<>>
+                        /\ mm.world[Sender].bal >= tx.gas * tx.price + tx.value + tx.blobs * BLOBGAS * 2)
+    /\ tx.auths # <<>> => (Has(PRAGUE) /\ tx.to # 0 /\ tx.prio >= 0)
     /\ Has(SHANGHAI) /\ tx.to = 0 => Len(tx.data) <= 49152
     /\ Len(tx.al) > 0 => Has(BERLIN)
 
+\* EIP-7702: process the authorization list (after the sender was charged and its nonce bumped).
+\* Each entry: the authority becomes warm; it is skipped if the authority has real code or its
+\* nonce differs; otherwise its code becomes the designator (or is cleared for address 0), its
+\* nonce is bumped, and 12500 is refunded if the account already existed.  <<world, warm set, refund>>
+RECURSIVE ApplyAuths(_, _, _, _)
+ApplyAuths(w, acc, ref, auths) ==
+    IF auths = <<>> THEN <<w, acc, ref>>
+    ELSE LET a == Head(auths)
+             au == a.authority
+             acc1 == acc \cup {au}
+             skip == (w[au].code # <<>> /\ DelegOf(w[au].code) = 0) \/ a.nonce # w[au].nonce
+             existed == w[au].ex /\ ~EmptyAcct(w[au])
+             w1 == [w EXCEPT ![au].code = IF a.to = 0 THEN <<>> ELSE DelegCode(a.to), ![au].nonce = @ + 1, ![au].ex = TRUE]
+         IN IF skip THEN ApplyAuths(w, acc1, ref, Tail(auths))
+            ELSE ApplyAuths(w1, acc1, ref + (IF existed THEN 12500 ELSE 0), Tail(auths))
+
 StartTx(mm, tx) ==
-    LET w1 == [mm.world EXCEPT ![Sender].bal = @ - tx.gas * EffPrice(tx),
+    LET w0 == [mm.world EXCEPT ![Sender].bal = @ - tx.gas * EffPrice(tx) - tx.blobs * BLOBGAS,
                                ![Sender].nonce = IF tx.to # 0 THEN @ + 1 ELSE @]
+        acc0 == {Sender} \cup (IF tx.to # 0 THEN {tx.to} ELSE {}) \cup Precompiles
+                \cup (IF Has(SHANGHAI) THEN {Coinbase} ELSE {}) \cup AlAddrs(tx)
+        au == ApplyAuths(w0, acc0, 0, tx.auths)
+        w1 == au[1]
         gas == tx.gas - Intrinsic(tx)
         m1 == [mm EXCEPT !.world = w1, !.orig = w1, !.tx = tx, !.ph = "run", !.steps = 0,
-                         !.accA = {Sender} \cup (IF tx.to # 0 THEN {tx.to} ELSE {}) \cup Precompiles
-                                  \cup (IF Has(SHANGHAI) THEN {Coinbase} ELSE {}) \cup AlAddrs(tx),
+                         !.accA = au[2], !.authref = au[3],
+                         !.touched = {Sender} \cup {tx.auths[i].authority : i \in 1..Len(tx.auths)},
                          !.accS = AlSlots(tx), !.tst = [a \in AddrU |-> [k \in Slots |-> 0]], !.logs = <<>>,
-                         !.dest = {}, !.touched = {Sender}, !.ctx = {}, !.events = <<>>, !.txcreated = 0,
+                         !.dest = {}, !.ctx = {}, !.events = <<>>, !.txcreated = 0,
                          !.txs = Append(@, tx)]
     IN IF tx.to # 0
        THEN DoCall(m1, "txcall", gas, tx.to, tx.to, Sender, tx.value, tx.value, tx.data, 0, 0, FALSE)
@@ -687,7 +725,8 @@ SnipsOf(K) ==
                \cup {P(a) \o <<21>> \o P(2) \o <<85>> : a \in {0, 5}}
           ELSE {})
     \cup (IF "env2" \in K
-          THEN {<<x>> \o P(2) \o <<85>> : x \in {58, 65, 66, 67, 69, 70, 72}}
+          THEN {<<x>> \o P(2) \o <<85>> : x \in {58, 65, 66, 67, 69, 70, 72, 74}}
+               \cup {P(2) \o <<73>> \o P(2) \o <<85>>}
                \cup {P(a) \o <<63>> \o P(2) \o <<85>> : a \in {172, 173}}
                \cup {P(3) \o P(0) \o P(1) \o P(a) \o <<60>> : a \in Contracts}
           ELSE {})
@@ -763,7 +802,8 @@ SnipsOf(K) ==
 W0 == [a \in AddrU |-> IF a \in DOMAIN World0 THEN World0[a] ELSE Blank]
 Init ==
     m = [ph |-> "setup", nsnip |-> 0, world |-> W0, world0 |-> W0, orig |-> W0, created |-> <<>>,
-         txs |-> <<>>, res |-> <<>>, tx |-> [to |-> 0, value |-> 0, gas |-> 0, price |-> 0, data |-> <<>>, al |-> <<>>, prio |-> -1],
+         txs |-> <<>>, res |-> <<>>, tx |-> [to |-> 0, value |-> 0, gas |-> 0, price |-> 0, data |-> <<>>, al |-> <<>>, prio |-> -1, blobs |-> 0, auths |-> <<>>],
+         authref |-> 0,
          accA |-> {}, accS |-> {}, tst |-> [a \in AddrU |-> [k \in Slots |-> 0]], logs |-> <<>>, dest |-> {},
          touched |-> {}, ctx |-> {}, frames |-> <<>>, events |-> <<>>, txcreated |-> 0, cut |-> FALSE, steps |-> 0,
          burnt |-> 0]
@@ -781,13 +821,24 @@ PlanStep == SetupPlan # <<>> /\ m.ph = "setup" /\ m.nsnip < Len(SetupPlan) /\
 EndSetup == m.ph = "setup" /\ (SetupPlan = <<>> \/ m.nsnip = Len(SetupPlan)) /\ m' = [m EXCEPT !.ph = "tx"]
 
 TxData == {<<>>, <<0, 0, 0, 7>>, <<1>>, [i \in 1..40 |-> 1]}
+\* authorization lists: an EOA, an absent and an empty account as authorities, contracts as delegates,
+\* right and wrong nonces, clearing, a contract as (ineligible) authority
+Auth(au, to, nonce) == [authority |-> au, to |-> to, nonce |-> nonce]
+AuthLists == {<<>>, <<>>, <<>>} \cup
+    {<<Auth(171, c, n)>> : c \in Contracts \cup {0}, n \in {1, 2}} \cup
+    {<<Auth(172, c, 0)>> : c \in Contracts} \cup {<<Auth(173, c, 0)>> : c \in Contracts} \cup
+    {<<Auth(171, c, 1), Auth(172, d, 0)>> : c \in Contracts, d \in Contracts} \cup
+    {<<Auth(171, c, 1), Auth(171, 0, 2)>> : c \in Contracts} \cup
+    {<<Auth(c, d, 1)>> : c \in Contracts, d \in Contracts}
 TxInit == {Ret1, P(2) \o P(1) \o <<85>> \o Ret1, <<254>>}
 AccessLists == {<<>>} \cup (IF Has(BERLIN) THEN {<<[addr |-> c, keys |-> <<0>>]>> : c \in Contracts} ELSE {})
 ChooseTx == m.ph = "tx" /\ Len(m.res) < MaxTx /\
     \E to \in TxTargets, value \in (IF TxVariety THEN {0, 1} ELSE {0}), gas \in TxGas, price \in GasPrices,
-       al \in (IF TxVariety THEN AccessLists ELSE {<<>>}), prio \in (IF TxVariety /\ Has(LONDON) THEN {-1, 0, 2} ELSE {-1}) :
+       al \in (IF TxVariety THEN AccessLists ELSE {<<>>}), prio \in (IF TxVariety /\ Has(LONDON) THEN {-1, 0, 2} ELSE {-1}),
+       blobs \in (IF TxVariety /\ Has(CANCUN) THEN {0, 2} ELSE {0}), auths \in (IF TxVariety /\ Has(PRAGUE) THEN AuthLists ELSE {<<>>}) :
       \E data \in (IF to = 0 THEN TxInit ELSE IF TxVariety THEN TxData ELSE {<<>>}) :
-        LET tx == [to |-> to, value |-> value, gas |-> gas, price |-> price, data |-> data, al |-> al, prio |-> prio] IN
+        LET tx == [to |-> to, value |-> value, gas |-> gas, price |-> price, data |-> data, al |-> al, prio |-> prio,
+                   blobs |-> blobs, auths |-> auths] IN
         ValidTx(m, tx) /\ m' = StartTx(m, tx)
 
 Run == m.ph = "run" /\ m' = (IF m.steps >= StepBound THEN Cut(m) ELSE Step([m EXCEPT !.steps = @ + 1]))
@@ -816,8 +867,8 @@ GasRules == \A i \in 1..Len(m.res) :
     \* intrinsic gas is a lower bound of what is spent before the refund (the refund itself may
     \* take the reported figure below it, as on mainnet); the EIP-7623 floor binds the final figure
     /\ r.gas_used <= t.gas /\ r.gas_used + r.refunded >= Intrinsic(t) /\ r.gas_used >= FloorGas(t)
-    /\ r.status = "halt" => r.gas_used = t.gas
-    /\ r.status # "ok" => r.refunded = 0
+    /\ r.status = "halt" => r.gas_used + r.refunded = t.gas          \* (refunded > 0 only through EIP-7702)
+    /\ r.status # "ok" => r.refunded <= 12500 * Len(t.auths)
     /\ r.refunded * (IF Has(LONDON) THEN 5 ELSE 2) <= r.gas_used + r.refunded
 \* C10: a static frame never changes the world (checked at every step)
 StaticFrozen == \A i \in 1..Len(m.frames) : m.frames[i].static =>
